@@ -449,7 +449,44 @@ def r185(facts, res):
         res.bad(R, 'rewrite-rule', loc_of(b, cb), why or 'could not read the rewrite decision (paths=%d)' % n)
 
 
+def r186(facts, res):
+    """the skip decision is a SUBSTRING test (outc.contains(cache)): the cache key must therefore be self-delimiting, i.e.
+    rebuild_cache must return the quotation of ONE string (a string literal token, closed by its quote) - otherwise a
+    setting whose rendering is a prefix of another (`Public` / `PublicCrate`) gives a false cache hit"""
+    R = 'R18.6'
+    b = facts.one(R, 'CTParserBuilder::build', crate='lrpar', name='build', impl_re='^' + PB)
+    uses_contains = any(cname(t) == 'contains' and 'str' in (cpath(t) or '') for bb, t in b.calls())
+    rc = facts.one(R, 'CTParserBuilder::rebuild_cache', crate='lrpar', name='rebuild_cache', impl_re='^' + PB)
+    if not uses_contains:
+        res.ok(R, 'cache-key-delimited', loc_of(rc), 'the skip decision is not a substring test; no delimiter needed')
+        return
+    # the returned token stream
+    ret_src = None
+    for bb, i, st in rc.stmts():
+        if st['k'] == 'assign' and st['lhs']['l'] == 0 and not st['lhs']['p'] and 'use' in st['rv']:
+            pl = op_place(st['rv']['use'])
+            if pl is not None:
+                ret_src = pl['l']
+    if ret_src is None:
+        # returned directly from a call
+        res.bad(R, 'cache-key-delimited', loc_of(rc), 'cannot see how the cache key token stream is built')
+        return
+    muts = []
+    for bb, t in rc.calls():
+        for a in t['args']:
+            l = op_local(a)
+            if l is not None and rc.lty(l).startswith('&mut ') and rc.op_root(a)[0] == ret_src:
+                muts.append((bb, t))
+    kinds = [(cname(t), (callee_of(t).get('self_ty') or '')) for bb, t in muts]
+    if len(muts) == 1 and kinds[0][0] == 'to_tokens' and kinds[0][1] in ('alloc::string::String', '&str', 'str', '&alloc::string::String'):
+        res.ok(R, 'cache-key-delimited', loc_of(rc, muts[0][0]), 'the cache key is a single string literal token: a substring match cannot stop inside a longer setting')
+    else:
+        res.bad(R, 'cache-key-delimited', loc_of(rc), 'the skip decision searches the old output for the cache key as a SUBSTRING, but the key is a raw token stream '
+                '(%d tokens pushed) with no terminator: a setting that renders as a prefix of the old one (e.g. Public vs PublicCrate, the last field) is a false cache hit' % len(muts))
+
+
 def run(facts, res):
+    r186(facts, res)
     r181(facts, res)
     r182(facts, res)
     r183(facts, res)
